@@ -225,6 +225,8 @@ def run(ck):
     ck.run_rule("P11", "chr() of operand values: ValueError and OverflowError are reported", 1, partial.rule_P11)
     ck.run_rule("P12", "multipliers / ranges / exponents taken from operands are bounded", 2, partial.rule_P12)
     ck.run_rule("C06.R1c", "declared operands reach get_as_int / get_as_str as (state, what, statement token, operand token): a symbol operand does not die on a permuted call", 4, c06.rule_cook_contract)
+    from ..rules import route as _route
+    ck.run_rule("BLK.route", "implicit word lists, constants and labels compiled as statements of a block: values, byte order, the label's address", 1, _route.rule_block_route)
     ck.run_rule("C03.R1u", "a name nobody defines: one error, then an integer value and no definition site (no None reaches arithmetic)", 1, c11.rule_undefined_value)
     ck.run_rule("C11.R5", "'.extern all' leaves a usable location (P7)", 4, c11.rule_R5)
     ck.run_rule("C03.R6", "operators applied to not-yet-known operands defer and later evaluate without raising", 9, c03.rule_R6)
